@@ -282,6 +282,11 @@ Example C13_ex_v1 :
     Ok (s_TAG ++ [84;105;116;108;101] ++ zeros 25 ++ zeros 30 ++ zeros 30 ++ [50;48;48;52] ++ [104;105] ++ zeros 27 ++ [5] ++ [1]) /\
   conv_field 3 (conv_latin1r [0x1F600; 233; 65; 66]) = [63; 233; 65].
 Proof. vm_compute. split; reflexivity. Qed.
+(* a text frame without values counts as absent (no IndexError): empty field, track byte 0 *)
+Example C13_ex_v1_empty_text :
+  conv_make_id3v1 ex_G [FText s_TIT2 3 []; FText s_TRCK 3 []; FText s_TCON 0 [[82;111;99;107]]] =
+    Ok (s_TAG ++ zeros 94 ++ zeros 29 ++ [0] ++ [1]).
+Proof. vm_compute. reflexivity. Qed.
 Example C13_ex_sizes :
   conv_frame_bytes 3 s_TIT2 (zeros 300) = Ok (s_TIT2 ++ [0;0;1;44] ++ [0;0] ++ zeros 300) /\
   conv_frame_bytes 4 s_TIT2 (zeros 300) = Ok (s_TIT2 ++ [0;0;2;44] ++ [0;0] ++ zeros 300) /\
